@@ -21,7 +21,7 @@ META = dict(
     technique="exhaustive enumeration of structures x API entry points (all option combinations) and of all measurement methods (introspected); before/after snapshots",
     text="5 atomic structures x 19 API entry points (orthogonalize_cell with all 48 option combinations) and every public measurement method that "
          "returns a measurement (introspected for 6 classes, arguments from a table, lazy and eager) are called and a deep snapshot of the caller's "
-         "input taken before is compared with one taken after.",
+         "input taken before is compared with one taken after. Each method is additionally called with the full product of an option alphabet (e.g. 5 scales x 3 shifts, 4 axis sets x keepdims).",
     note="Bound: the structure alphabet and one argument set per method. Methods without an argument-table entry are reported as uncovered in the evidence. "
          "A call that raises is an outcome (the snapshot is still compared).",
 )
